@@ -629,6 +629,218 @@ fn from_text(c: &mut Ctx) {
     }
 }
 
+// ------------------------------------------------------ compressed wire --
+
+/// A valid name laid out in a message-like buffer as segments chained by compression pointers
+/// (a segment may be a pointer and nothing else), parsed as `ParsedName` and taken through every
+/// conversion: each must yield the octets of the name itself.
+fn compressed_wire(c: &mut Ctx) {
+    use domain::base::name::{FlattenInto, ToLabelIter};
+    let fam = "compressed";
+    let total = c.total(200_000, 16_000_000);
+    for idx in c.cases(fam, total) {
+        if c.out_of_time() {
+            break;
+        }
+        let mut rng = c.case_rng(fam, idx);
+        let full = names::abs_name(&mut rng);
+        let labels: Vec<Vec<u8>> = crate::refimpl::wire::labels(&full).into_iter().map(|l| l.to_vec()).collect();
+        // cut the label list into 1..=4 segments (possibly empty ones), the last one ends with the root label
+        let nseg = rng.range(1, 4);
+        let mut cuts: Vec<usize> = (0..nseg - 1).map(|_| rng.below(labels.len() + 1)).collect();
+        cuts.sort_unstable();
+        let mut segs: Vec<&[Vec<u8>]> = Vec::new();
+        let mut prev = 0;
+        for cu in &cuts {
+            segs.push(&labels[prev..*cu]);
+            prev = *cu;
+        }
+        segs.push(&labels[prev..]);
+        // lay the segments out back to front, with filler in between
+        let mut buf: Vec<u8> = vec![0u8; 12];
+        let mut next_start: Option<usize> = None;
+        for (si, seg) in segs.iter().enumerate().rev() {
+            buf.extend(rng.bytes(rng.clone().below(5)));
+            let here = buf.len();
+            for l in seg.iter() {
+                buf.push(l.len() as u8);
+                buf.extend_from_slice(l);
+            }
+            match next_start {
+                None => buf.push(0),
+                Some(t) => {
+                    buf.push(0xC0 | (t >> 8) as u8);
+                    buf.push(t as u8);
+                }
+            }
+            let _ = si;
+            next_start = Some(here);
+        }
+        let start = next_start.unwrap();
+        buf.extend_from_slice(&[0xAA, 0xBB]);
+        let ex = || json!({"buffer": hex(&buf), "start": start, "name": hex(&full), "segments": segs.iter().map(|s| s.len()).collect::<Vec<_>>()});
+        let r = c.guard(fam, idx, ex, || {
+            let mut p = Parser::from_ref(&buf[..]);
+            p.advance(start).unwrap();
+            let pn = match ParsedName::parse(&mut p) {
+                Ok(n) => n,
+                Err(e) => return Err(format!("parse: {}", e)),
+            };
+            let mut out: Vec<(&'static str, Vec<u8>)> = Vec::new();
+            out.push(("to_vec", pn.to_vec().as_slice().to_vec()));
+            out.push(("to_cow", pn.to_cow().as_slice().to_vec()));
+            out.push(("to_name", pn.to_name::<Vec<u8>>().as_slice().to_vec()));
+            let fl: Result<Name<Vec<u8>>, _> = pn.clone().try_flatten_into();
+            match fl {
+                Ok(n) => out.push(("flatten_into", n.as_slice().to_vec())),
+                Err(_) => return Err("flatten_into failed".into()),
+            }
+            let mut b = Vec::new();
+            pn.compose(&mut b).unwrap();
+            out.push(("compose", b));
+            let mut b = Vec::new();
+            pn.compose_canonical(&mut b).unwrap();
+            out.push(("compose_canonical", b));
+            let mut it = Vec::new();
+            for l in pn.iter() {
+                it.push(l.len() as u8);
+                it.extend_from_slice(l.as_slice());
+            }
+            out.push(("iter", it));
+            if let Some(fs) = pn.as_flat_slice() {
+                out.push(("as_flat_slice", fs.to_vec()));
+            }
+            let reference = Name::from_octets(full.clone()).unwrap();
+            let eqs = (pn == reference, pn.name_eq(&reference), reference.name_eq(&pn), pn.name_cmp(&reference) == std::cmp::Ordering::Equal, pn.compose_len() as usize);
+            let text = format!("{}", pn);
+            Ok((out, eqs, text, pn.is_compressed()))
+        });
+        let Some(r) = r else { continue };
+        match r {
+            Err(e) => {
+                c.violation("compressed:valid-name-refused", &format!("a valid compressed name is refused: {}", e), c.replay_of(fam, idx, ex()));
+            }
+            Ok((out, eqs, text, is_c)) => {
+                let lower = crate::refimpl::wire::lower(&full);
+                for (api, o) in &out {
+                    let want: &[u8] = if *api == "compose_canonical" { &lower } else { &full };
+                    if &o[..] != want {
+                        c.violation(&format!("compressed:{}-differs", api), &format!("ParsedName::{} of a name spread over {} segments gives {} instead of {}", api, segs.len(), hex(&o[..o.len().min(80)]), hex(&full[..full.len().min(80)])), c.replay_of(fam, idx, ex()));
+                        break;
+                    }
+                }
+                if !(eqs.0 && eqs.1 && eqs.2 && eqs.3) || eqs.4 != full.len() {
+                    c.violation("compressed:not-equal-to-itself-flat", &format!("a compressed name does not compare equal to its flat form (==, name_eq both ways, name_cmp: {:?}; compose_len {} of {})", (eqs.0, eqs.1, eqs.2, eqs.3), eqs.4, full.len()), c.replay_of(fam, idx, ex()));
+                }
+                // (the root name displays as "." when flat and as the empty string when parsed: documented)
+                if full.len() > 1 && text != format!("{}", Name::from_octets(full.clone()).unwrap()) {
+                    c.violation("compressed:display-differs", "Display of a compressed name differs from that of its flat form", c.replay_of(fam, idx, ex()));
+                }
+                c.count("compressed_names_converted", 1);
+                if segs.len() >= 2 && segs[0].is_empty() {
+                    c.count("compressed_pointer_first_names", 1);
+                }
+                c.eval(&("compressed", segs.len(), segs[0].is_empty(), is_c, labels.len().min(8), full.len() / 32));
+            }
+        }
+    }
+}
+
+// -------------------------------------------------- zone-file scanner --
+
+/// The zone-file reader is a name constructor too: names around the 63-octet label limit and
+/// the 255-octet name limit, written with and without escapes, absolute and relative to an
+/// origin, are accepted exactly when they are valid, and then hold the octets of the model.
+fn scanner_names(c: &mut Ctx) {
+    use domain::zonefile::inplace::{Entry, Zonefile};
+    let fam = "scan";
+    let total = c.total(60_000, 6_000_000);
+    let origin: &[u8] = b"\x07example\x00";
+    for idx in c.cases(fam, total) {
+        if c.out_of_time() {
+            break;
+        }
+        let mut rng = c.case_rng(fam, idx);
+        // labels: a few ordinary ones, possibly one at 62..=65 octets, possibly padded to a total around 255
+        let mut labels: Vec<Vec<u8>> = Vec::new();
+        for _ in 0..rng.range(1, 4) {
+            labels.push(names::small_label(&mut rng));
+        }
+        if rng.chance(1, 2) {
+            let l = *rng.pick(&[62usize, 63, 63, 64, 64, 65]);
+            let style = rng.below(3);
+            let lab: Vec<u8> = (0..l).map(|_| match style { 0 => *rng.pick(b"abcxyz019-"), 1 => *rng.pick(&[b'a', b'.', b'\\', b' ', b'"', b';', 0x07, 0xe9]), _ => rng.u8() }).collect();
+            let at = rng.below(labels.len() + 1);
+            labels.insert(at, lab);
+        }
+        let relative = rng.chance(1, 3);
+        let tail = if relative { origin.len() } else { 1 };
+        if rng.chance(1, 2) {
+            // pad towards a total of 253..=257 octets
+            let aim = rng.range(253, 257);
+            loop {
+                let cur: usize = labels.iter().map(|l| l.len() + 1).sum::<usize>() + tail;
+                if cur + 2 > aim {
+                    break;
+                }
+                let l = (aim - cur - 1).min(*rng.pick(&[63usize, 40, 17]));
+                labels.push((0..l).map(|_| *rng.pick(b"pad0")).collect());
+            }
+        }
+        let mut rel_wire = Vec::new();
+        for l in &labels {
+            rel_wire.push(l.len() as u8);
+            rel_wire.extend_from_slice(l);
+        }
+        let mut full = rel_wire.clone();
+        full.extend_from_slice(if relative { origin } else { &[0] });
+        let valid = labels.iter().all(|l| (1..=63).contains(&l.len())) && full.len() <= 255;
+        let mut wire0 = rel_wire.clone();
+        wire0.push(0);
+        let text = names::presentation(&mut rng, &wire0, !relative);
+        let text = if relative { text.trim_end_matches('.').to_string() } else { text };
+        if relative && (text.ends_with("\\") || text.is_empty()) {
+            continue;
+        }
+        let zone = format!("{} 300 IN NS {}\n", text, text);
+        let ex = || json!({"zone_text": zone, "labels": labels.iter().map(|l| l.len()).collect::<Vec<_>>(), "relative": relative});
+        let r = c.guard(fam, idx, ex, || {
+            let mut zf = Zonefile::from(zone.as_bytes());
+            zf.set_origin(Name::from_octets(Bytes::from_static(b"\x07example\x00")).unwrap());
+            match zf.next_entry() {
+                Ok(Some(Entry::Record(r))) => {
+                    let mut o = Vec::new();
+                    r.owner().compose(&mut o).unwrap();
+                    let mut d = Vec::new();
+                    use domain::base::rdata::ComposeRecordData;
+                    r.data().compose_rdata(&mut d).unwrap();
+                    Ok((o, d))
+                }
+                Ok(_) => Err("no record".to_string()),
+                Err(e) => Err(e.to_string()),
+            }
+        });
+        let Some(r) = r else { continue };
+        match (valid, r) {
+            (true, Ok((o, d))) => {
+                if o != full || d != full {
+                    c.violation("scan:name-differs", &format!("the zone-file reader read {:?} as owner {} and target {}; the name is {}", text, hex(&o[..o.len().min(70)]), hex(&d[..d.len().min(70)]), hex(&full[..full.len().min(70)])), c.replay_of(fam, idx, ex()));
+                }
+                c.count("scan_valid_read_back", 1);
+            }
+            (true, Err(e)) => {
+                c.violation("scan:valid-name-refused", &format!("the zone-file reader refuses the valid name {:?} ({} octets, labels {:?}): {}", text, full.len(), labels.iter().map(|l| l.len()).collect::<Vec<_>>(), e), c.replay_of(fam, idx, ex()));
+            }
+            (false, Ok((o, d))) => {
+                let what = if labels.iter().any(|l| l.len() > 63) { "label-of-64-or-more" } else { "name-of-256-or-more" };
+                c.violation(&format!("scan:invalid-name-accepted:{}", what), &format!("the zone-file reader accepts {:?} (labels {:?}, {} octets in all) as owner {} and target {}", text, labels.iter().map(|l| l.len()).collect::<Vec<_>>(), full.len(), hex(&o[..o.len().min(70)]), hex(&d[..d.len().min(70)])), c.replay_of(fam, idx, ex()));
+            }
+            (false, Err(_)) => c.count("scan_invalid_refused", 1),
+        }
+        c.eval(&("scan", valid, relative, labels.iter().map(|l| l.len()).max().unwrap_or(0).min(66), full.len().min(260) / 4, text.contains('\\')));
+    }
+}
+
 // ---------------------------------------------------------- operations --
 
 fn ops(c: &mut Ctx) {
@@ -1077,13 +1289,15 @@ fn ops_case(c: &mut Ctx, fam: &str, idx: u64, rng: &mut Rng, w: &[u8], other: &[
 }
 
 pub fn run(c: &mut Ctx) {
-    c.families(7);
+    c.families(9);
     builder_boundary::<Vec<u8>>(c, "Vec");
     builder_boundary::<BytesMut>(c, "BytesMut");
     builder_sequences::<Vec<u8>>(c, "Vec");
     builder_sequences::<BytesMut>(c, "BytesMut");
     from_wire(c);
+    compressed_wire(c);
     from_text(c);
+    scanner_names(c);
     ops(c);
     if c.scale >= 1.0 && !c.is_quick() {
         c.exhaustive = Some(true);
@@ -1092,6 +1306,10 @@ pub fn run(c: &mut Ctx) {
     c.floor("builder_rejections_required", 100);
     c.floor("builder_accepts", 100);
     c.floor("text_roundtrips", 100);
+    c.floor("scan_valid_read_back", 100);
+    c.floor("compressed_names_converted", 1000);
+    c.floor("compressed_pointer_first_names", 100);
+    c.floor("scan_invalid_refused", 100);
     c.floor("chains", 10);
     c.floor("slices", 100);
 }
